@@ -478,6 +478,22 @@ def newOverlay (oi : OI) (Ls : List Layer) : OI := { oi with pend := some Ls }
 /-- the overlay the next `update` will see -/
 def curLayers (oi : OI) : List Layer := oi.pend.getD oi.layers
 
+/-! ### the companion invariant the fast path relies on -/
+
+/-- an entry the fast path may return as it stands: a plain add with a non-zero offset -/
+def liveE (e : Ent) : Bool := e.op = .add && e.off != 0
+
+/-- every entry that is not a plain add has an entry with the same key in a lower layer
+(`overiter.go`: "any tombstone/update in this iter has a companion in another iter").
+`below` = the layers already passed (the list is bottom first). Not used by the mirror itself:
+it is the hypothesis of the fast-path theorems, and the driver checks it on every replayed
+overlay. -/
+def compFrom (below : List Layer) : List Layer → Bool
+  | [] => true
+  | L :: Ls =>
+    L.all (fun e => liveE e || below.any (fun M => M.any (fun e' => e'.key = e.key))) &&
+      compFrom (L :: below) Ls
+
 /-! ### skip-scan -/
 
 /-- visibility of a key in skip-scan mode -/
